@@ -1241,7 +1241,13 @@ impl<T: RadixSortable> AdvancedRadixSort<T> {
             // Count occurrences with SIMD optimization when available
             counts.fill(0);
 
-            if self.config.use_simd && self.cpu_features.has_advanced_simd() && data.len() >= 16 {
+            // count_digits_simd looks at the low 32 bits of each key only (32-bit lanes): use it
+            // for digits that lie entirely there, count the higher digits sequentially
+            if self.config.use_simd
+                && self.cpu_features.has_advanced_simd()
+                && data.len() >= 16
+                && shift + self.config.radix_bits <= 32
+            {
                 self.count_digits_simd(data, shift, mask, &mut counts)?;
             } else {
                 // Sequential counting
